@@ -9,7 +9,7 @@ from vfacts import strip, walk, method_name, root_path, enclosing, is_node
 from .prov import var_table
 
 RULE = 'COLLECTALL'
-FLOOR = 10
+FLOOR = 8
 LOOPS = ('ForStmt', 'WhileStmt', 'CXXForRangeStmt', 'DoStmt')
 
 
